@@ -247,7 +247,8 @@ func numberOfBloomFilterBits(n uint, r float64) uint {
 }
 
 func numberOfBloomFilterHashFunctions(s uint, n uint) uint {
-	return uint(math.Round(float64(s) / float64(n) * math.Log(2)))
+	// at least one: with zero hash functions Add sets nothing and Exists answers "absent" for everything
+	return max(1, uint(math.Round(float64(s)/float64(n)*math.Log(2))))
 }
 
 func (c *bloomFilter) Add(ctx context.Context, key string) error {
